@@ -33,6 +33,18 @@ def graph_sdl(n, edges, oneof):
     return "\n".join(parts) + "\n"
 
 
+def graph_schema(n, edges, oneof):
+    """The same schema as graph_sdl, as a reference-model object (so that it can also be rendered as JSON)."""
+    types = [gql.obj("Q", [gql.FieldDef("f", "Int", args=[("a", "In0")])])]
+    for i in range(n):
+        fields = [("v", "Int")]
+        for j in range(n):
+            for k, kind in enumerate(edges.get((i, j), [])):
+                fields.append(("e%d_%d" % (j, k), KINDS[kind] % ("In%d" % j)))
+        types.append(gql.inp("In%d" % i, fields, one_of=oneof[i]))
+    return gql.Schema(types, {"query": "Q"}, explicit=True)
+
+
 def enumerate_graphs(tier):
     out = []
     base5 = ["-", "T", "T!", "[T]", "[T!]!"]
@@ -270,15 +282,28 @@ def run(tier):
     for n, edges, oneof in graphs:
         reqs.append({"op": "gen", "schema_path": scratch_file(graph_sdl(n, edges, oneof), "graphql", "c12"), "query_text": query,
                      "options": DEFAULT_OPTS, "tokens": False, "edges": True})
+    # the small graphs once more under other options and from the JSON form of the schema (where the indirection
+    # goes must depend on neither)
+    n_default = len(graphs)
+    ALT = dict(DEFAULT_OPTS, normalization="rust", skip_none=True, variables_derives="Deserialize,Debug,Clone,PartialEq")
+    for n, edges, oneof in list(graphs):
+        if n <= 2 and not any(len(v) > 1 for v in edges.values()):
+            graphs.append((n, edges, oneof))
+            reqs.append({"op": "gen", "schema_path": scratch_file(graph_sdl(n, edges, oneof), "graphql", "c12"), "query_text": query,
+                         "options": ALT, "tokens": False, "edges": True})
+            graphs.append((n, edges, oneof))
+            reqs.append({"op": "gen", "schema_path": scratch_file(graph_schema(n, edges, oneof).introspection(), "json", "c12"), "query_text": query,
+                         "options": DEFAULT_OPTS, "tokens": False, "edges": True})
     log(f"[C12] {len(graphs)} input-type graphs")
     resps = run_cases(reqs, progress=20000)
     states = 0
     cyclic_graphs = 0
     boxed = 0
     samples = []
-    for (n, edges, oneof), r in zip(graphs, resps):
+    for gi, ((n, edges, oneof), r) in enumerate(zip(graphs, resps)):
         states += 1
-        label = {"n": n, "edges": {"%d->%d" % k: v for k, v in edges.items() if v}, "oneOf": list(oneof)}
+        label = {"n": n, "edges": {"%d->%d" % k: v for k, v in edges.items() if v}, "oneOf": list(oneof),
+                 "variant": "default" if gi < n_default else ("other options" if (gi - n_default) % 2 == 0 else "schema as introspection JSON")}
         if r["status"] != "ok":
             rep.violation("generation_failed", dict(label, schema=graph_sdl(n, edges, oneof)), r.get("msg") or r["status"])
             continue
@@ -316,6 +341,8 @@ def run(tier):
     # ------------------------------------------------------------- conformance subset (inputs)
     conf = []
     for idx, (n, edges, oneof) in enumerate(graphs):
+        if idx >= n_default:
+            break
         if n == 1:
             conf.append(idx)
         elif n == 2 and not any(len(v) > 1 for v in edges.values()):
